@@ -125,6 +125,7 @@ type World struct {
 	lastBytes map[int][]byte
 	checkSeq  map[string]uint64
 	StopOnViolation bool
+	KnownClasses map[string]bool // classes listed in known_findings.json: recorded, but the run goes on
 	stopped  bool
 	EndedBy  string
 	scratch  string
@@ -149,7 +150,7 @@ func (w *World) Violate(prop, class, format string, a ...interface{}) {
 	v := Violation{Property: prop, Class: class, Detail: fmt.Sprintf(format, a...), Block: w.BlockIdx, Tx: -1}
 	w.Viol = append(w.Viol, v)
 	w.Ev("VIOLATION %s %s %s", prop, class, v.Detail)
-	if w.StopOnViolation {
+	if w.StopOnViolation && !w.KnownClasses[class] {
 		w.stopped = true
 	}
 }
